@@ -27,7 +27,8 @@ import (
 type Class uint8
 
 const (
-	ClsSched  Class = iota // which enabled thread runs
+	ClsSched  Class = iota // which enabled thread runs while the running one could continue (non-default = preemption)
+	ClsSwitch              // which enabled thread runs after the running one blocked or exited (non-default = delay)
 	ClsSelect              // which ready select case
 	ClsEnv                 // environment answer (fault, short read, rand, map order)
 	ClsInput               // harness input alphabet (always fully enumerated)
@@ -37,6 +38,8 @@ func (c Class) String() string {
 	switch c {
 	case ClsSched:
 		return "sched"
+	case ClsSwitch:
+		return "switch"
 	case ClsSelect:
 		return "select"
 	case ClsEnv:
@@ -351,7 +354,11 @@ func (e *Exec) pick(cur *thread) *thread {
 		case 1:
 			return en[0]
 		}
-		k := e.choose(ClsSched, len(en), curEnabled, "")
+		cls := ClsSwitch
+		if curEnabled {
+			cls = ClsSched
+		}
+		k := e.choose(cls, len(en), true, "")
 		return en[k]
 	}
 }
